@@ -120,7 +120,7 @@ func genRule(t *rapid.T, label string) gen.RuleSpec {
 	if rapid.IntRange(0, 2).Draw(t, label+".noisy") == 0 {
 		r.Expr = rapid.SampledFrom(noisyExprs).Draw(t, label+".nexpr")
 	}
-	if r.Alert && rapid.IntRange(0, 3).Draw(t, label+".extralabel") == 0 {
+	if r.Alert && rapid.IntRange(0, 2).Draw(t, label+".extralabel") == 0 {
 		// labels that config blocks below look at
 		k := rapid.SampledFrom([]string{"severity", "team", "env"}).Draw(t, label+".xk")
 		v := rapid.SampledFrom([]string{"critical", "page", "warning", "prod", "x y", "https://example.com/x"}).Draw(t, label+".xv")
@@ -483,7 +483,106 @@ func GenConfig(t *rapid.T, online bool, minBlocks int, commentPerKind bool) (str
 		}
 		sb.WriteString("}\n")
 	}
+	if rapid.IntRange(0, 2).Draw(t, "cfg.ladder") > 0 {
+		txt, tg := genLadder(t, comments)
+		if rapid.Bool().Draw(t, "cfg.ladderFirst") {
+			return txt + sb.String(), append(tags, tg...)
+		}
+		sb.WriteString(txt)
+		tags = append(tags, tg...)
+	}
 	return sb.String(), tags
+}
+
+// genLadder emits 2-3 rule{} blocks that configure the SAME check (same kind, key,
+// options and comment, hence the same problem text) at DIFFERENT severities for
+// different sets of rules (split by label value / kind / name / path, or
+// overlapping), so that one issue text is reported at several severities across
+// rules and files, in either order.
+func genLadder(t *rapid.T, comments map[string]string) (string, []string) {
+	type tmpl struct {
+		kind  string
+		head  string
+		attrs []string
+		both  bool // applies to recording rules too
+	}
+	tmpls := []tmpl{
+		{"annotation", `annotation "runbook_url"`, []string{"required = true"}, false},
+		{"annotation", `annotation "dashboard"`, []string{"required = true"}, false},
+		{"annotation", `annotation "summary"`, []string{`value = "[A-Z].+ is down"`, "required = true"}, false},
+		{"label", `label "team"`, []string{"required = true"}, true},
+		{"label", `label "severity"`, []string{`value = "critical|warning"`, "required = true"}, true},
+		{"for", "for", []string{`min = "10m"`}, false},
+		{"keep_firing_for", "keep_firing_for", []string{`max = "1m"`}, false},
+		{"name", `name "ok:.+"`, nil, true},
+		{"aggregate", `aggregate ".+"`, []string{`keep = ["cluster"]`}, true},
+		{"reject", `reject ".*"`, []string{"label_keys = true"}, true},
+	}
+	tp := rapid.SampledFrom(tmpls).Draw(t, "ladder.tmpl")
+	comment := rapid.SampledFrom([]string{"", "see the wiki"}).Draw(t, "ladder.comment")
+	if comments != nil {
+		if prev, ok := comments[tp.kind]; ok {
+			comment = prev
+		} else {
+			comments[tp.kind] = comment
+		}
+	}
+	sevs := rapid.Permutation([]string{"", "info", "warning", "bug", "fatal"}).Draw(t, "ladder.sevs")
+	n := rapid.IntRange(2, 3).Draw(t, "ladder.n")
+	splits := []string{"label", "name", "path", "overlap"}
+	if tp.both {
+		splits = append(splits, "kind")
+	}
+	split := rapid.SampledFrom(splits).Draw(t, "ladder.split")
+	// selectors[i] is the match/ignore text of rung i; rung 0 is the catch-all remainder
+	var sel [][]string
+	switch split {
+	case "label":
+		sel = [][]string{
+			{"  ignore {\n    label \"severity\" {\n      value = \"critical|page|warning\"\n    }\n  }\n"},
+			{"  match {\n    label \"severity\" {\n      value = \"critical|page\"\n    }\n  }\n"},
+			{"  match {\n    label \"severity\" {\n      value = \"warning\"\n    }\n  }\n"},
+		}
+	case "name":
+		sel = [][]string{
+			{"  ignore {\n    name = \".*Down|Foo.*|.*:.*\"\n  }\n"},
+			{"  match {\n    name = \".*Down|Foo.*\"\n  }\n"},
+			{"  match {\n    name = \".*:.*\"\n  }\n"},
+		}
+	case "path":
+		sel = [][]string{
+			{"  ignore {\n    path = \"rules/.*|alerts/.*|a.yml|b.yml\"\n  }\n"},
+			{"  match {\n    path = \"rules/.*|a.yml\"\n  }\n"},
+			{"  match {\n    path = \"alerts/.*|b.yml\"\n  }\n"},
+		}
+	case "kind":
+		sel = [][]string{
+			{"  match {\n    kind = \"alerting\"\n  }\n"},
+			{"  match {\n    kind = \"recording\"\n  }\n"},
+			{"  match {\n    kind = \"recording\"\n    name = \"job:.*\"\n  }\n"},
+		}
+	default: // overlapping: the first block that matches a rule wins
+		sel = [][]string{
+			{""},
+			{"  match {\n    name = \".*[a-m]\"\n  }\n"},
+			{"  match {\n    kind = \"alerting\"\n  }\n"},
+		}
+	}
+	order := rapid.Permutation([]int{0, 1, 2}[:n]).Draw(t, "ladder.order")
+	var sb strings.Builder
+	for _, i := range order {
+		sb.WriteString("rule {\n" + sel[i][0])
+		b := hclBlock{head: tp.head, attrs: append([]string{}, tp.attrs...)}
+		if sevs[i] != "" {
+			b.attrs = append(b.attrs, "severity = "+hclStr(sevs[i]))
+		}
+		if comment != "" {
+			b.attrs = append(b.attrs, "comment = "+hclStr(comment))
+		}
+		sb.WriteString(b.render("  "))
+		sb.WriteString("}\n")
+	}
+	return sb.String(), []string{"ladder:" + tp.kind + ":" + split}
 }
 
 // ---------------------------------------------------------------------------
